@@ -45,6 +45,13 @@ Tokens == {
   T("[]string", "two", <<"x", "y">>, TRUE, "[\"x\",\"y\"]"), T("[]string", "one", <<"x">>, TRUE, "[\"x\"]"),
   T("[]int", "two", <<"1", "2">>, TRUE, "[1,2]"), T("[]int", "bad", <<"1", "x">>, FALSE, ""),
   T("p1.Color", "red", <<"red">>, TRUE, "\"red\""), T("p1.Color", "violet", <<"violet">>, TRUE, "\"violet\""),   \* violet: not a member of Color
+  T("p2.Level", "one", <<"1">>, TRUE, "1"), T("p2.Level", "seven", <<"7">>, TRUE, "7"), T("p2.Level", "word", <<"abc">>, FALSE, ""),        \* an int enum {1, 2}: 7 is not a member
+  T("p2.Code", "abc", <<"abc">>, TRUE, "\"abc\""), T("p2.Code", "empty", <<"">>, TRUE, "\"\""),                                          \* a string alias
+  T("[]p1.Color", "two", <<"red", "blue">>, TRUE, "[\"red\",\"blue\"]"), T("[]p1.Color", "zmixed", <<"red", "violet">>, TRUE, "[\"red\",\"violet\"]"),
+  T("p1.Shade", "dark", <<"dark">>, TRUE, "\"dark\""), T("p1.Shade", "violet", <<"violet">>, TRUE, "\"violet\""),
+  T("p2.Line", "full", <<"{\"sku\":\"abc\",\"level\":1,\"alias\":\"x\"}">>, TRUE, "{\"sku\":\"abc\",\"level\":1,\"alias\":\"x\"}"),
+  T("p2.Line", "nosku", <<"{\"level\":1}">>, FALSE, ""), T("p2.Line", "longsku", <<"{\"sku\":\"abcdefghijk\",\"level\":1,\"alias\":\"\"}">>, FALSE, ""),   \* sku: required,min=1,max=10
+  T("[]p2.Line", "one", <<"[{\"sku\":\"a\",\"level\":2,\"alias\":\"\"}]">>, TRUE, "[{\"sku\":\"a\",\"level\":2,\"alias\":\"\"}]"), T("[]p2.Line", "nosku", <<"[{\"level\":2}]">>, FALSE, ""),
   T("p1.Item", "full", <<"{\"name\":\"n\",\"count\":3}">>, TRUE, "{\"name\":\"n\",\"count\":3}"),
   T("p1.Item", "min", <<"{\"name\":\"n\"}">>, TRUE, "{\"name\":\"n\",\"count\":null}"),
   T("p1.Item", "noname", <<"{\"count\":3}">>, FALSE, ""), T("p1.Item", "badjson", <<"{\"name\":">>, FALSE, ""),
@@ -80,7 +87,7 @@ Decision(script, n) == IF n <= Len(script) THEN script[n] ELSE TRUE
 
 \* Declared validators (go-playground tags) that the handler machine understands, as data: which tokens of which type pass.
 \* A rule the table does not know leaves the verdict open ("?"): nothing is then expected of that request.
-NonMembers == {<<"p1.Color", "violet">>}
+NonMembers == {<<"p1.Color", "violet">>, <<"p2.Level", "seven">>, <<"[]p1.Color", "zmixed">>, <<"p1.Shade", "violet">>}
 RulePasses(rule, ty, tokid) ==
     CASE rule \in {"required", "omitempty", ""} -> "yes"
       [] rule = "oneof=abc a+b" /\ ty = "string" -> IF tokid \in {"abc", "plus"} THEN "yes" ELSE "no"
